@@ -12,7 +12,17 @@ READER_PINS = ['loader.SgzLoader._get_compressed_bytes', 'loader.SgzLoader._deco
                'loader.SgzLoader._decompress_into_array', 'loader.SgzLoader.load_compressed_volume',
                'read.SgzReader.__init__.fileopen', 'read.SgzReader.__init__.coords']
 
+WRITER_PINS = ['conversion_utils.compressor', 'conversion_utils.numpy_producer', 'conversion_utils.seismic_file_producer',
+               'conversion_utils.io_thread_func', 'conversion_utils.MinimalInlineReader.__init__',
+               'conversion_utils.MinimalInlineReader.get_format_code', 'conversion_utils.MinimalInlineReader.self_test',
+               'conversion_utils.MinimalInlineReader.read_line']
+
 PROPS = {
+    'C01': dict(gen_targets=['Producer', 'Utils', 'Reader'], pins=WRITER_PINS, harness='writer.py',
+                trusted=['tools/genx_producer.py + tools/miniast.py (structural, fail-closed extraction of the producers\' arithmetic)',
+                         'hand model (coq/Model/Writer.v): numpy slicing clips, np.pad edge = clamp, buffer row a of plane set p = padded row p*bs0+a, zfpy.compress_numpy emits unit codes in C order (validated: harness O3 + byte-exact comparison of every array handed to the compressor)'],
+                assumptions=['FIFO order of the two queues (C16)', 'MinimalInlineReader.read_line(L) returns line L of the SEG-Y (pinned; validated by the reduced-I/O route cases)',
+                             'VDS/ZGY routes: not executed in the quick tier (ZGY cannot run in this sandbox: np.round_)']),
     'C02': dict(gen_targets=READER_TARGETS, pins=READER_PINS, harness='reads.py',
                 trusted=['positive denominators of the rate fraction assumed when comparing rationals'],
                 assumptions=['codec values are abstract: results are provenance grids; bitwise equality follows for any unit-local codec'],
@@ -22,4 +32,12 @@ PROPS = {
                 assumptions=['I/O traces of model and implementation are compared after coalescing adjacent ranges']),
     'C03': dict(gen_targets=['Version'], pins=[], harness='version.py', trusted=[],
                 assumptions=['string constructor is a hand model of the pinned source text (int() restricted to digit strings)']),
+    'C20': dict(gen_targets=['Hash', 'Utils'],
+                pins=['conversion_utils.MinimalInlineReader.read_line', 'utils.Geometry3d.__init__', 'utils.Geometry2d.__init__'],
+                harness='hash.py',
+                trusted=['tools/genx_hash.py (fail-closed extraction of the slices passed to hash_object.update, write/read offsets of the digest)',
+                         'hashlib streaming: update(a); update(b) == update(a+b) (checked per case by the harness)'],
+                assumptions=['SHA-1 abstract (Section variable H): sensitivity holds up to a collision of H',
+                             'samples compared as float32 bit patterns',
+                             'irregular sources with holes: the stored hash is that of the zero-filled grid (recorded as a note; outside the property quantifier "cubes and 2D sections")']),
 }
